@@ -26,3 +26,32 @@ Proof.
   rewrite forallb_forall in H. exact (H _ Hin).
 Qed.
 Print Assumptions C04_json_keys_well_formed.
+
+(** the payload survives the wire: for every kind whose keys are well formed (all regenerated schemas are, above) and
+    every value of that shape, the receiver decodes exactly the value that was encoded -- all optional fields present
+    or absent, nested arrays, any depth ... *)
+Theorem C04_payload_roundtrip : forall f k v, wf_jkind f k = true -> typed f k v = true -> decode f k (encode f k v) = Ok v.
+Proof. exact roundtrip. Qed.
+Print Assumptions C04_payload_roundtrip.
+
+(** ... and serialising the decoded message again yields the same JSON *)
+Theorem C04_reserialisation_identical : forall f k v v', wf_jkind f k = true -> typed f k v = true ->
+  decode f k (encode f k v) = Ok v' -> encode f k v' = encode f k v.
+Proof. exact reencode_same. Qed.
+Print Assumptions C04_reserialisation_identical.
+
+(** the text of every string (any code points, HTML-sensitive characters, control characters, U+2028/9) is read back
+    unchanged under both HTML-escaping settings *)
+Theorem C04_string_text_roundtrip : forall esc s, Forall cp_ok s -> exists f, parse_str f (print_str esc s) = Some s.
+Proof. exact parse_print_str. Qed.
+Print Assumptions C04_string_text_roundtrip.
+
+(** the hypotheses are satisfiable by a real message: BootNotification.req of 1.6 with every field present *)
+Theorem C04_roundtrip_nonvacuous :
+  exists k v, (nth_error jschemas 2 = Some ("16/BootNotification/req"%string, k)) /\ (wf_jkind 40 k = true) /\
+              (typed 40 k v = true) /\ (decode 40 k (encode 40 k v) = Ok v) /\ (v <> VStruct []).
+Proof.
+  eexists. exists (VStruct [VStr [66]; VStr [67; 60]; VStr [68]; VStr []; VStr [8232]; VStr []; VStr [70]; VStr []; VStr [38]]).
+  split; [reflexivity|]. repeat split; try (vm_compute; reflexivity). discriminate.
+Qed.
+Print Assumptions C04_roundtrip_nonvacuous.
